@@ -575,6 +575,7 @@ func (m *Machine) AssertProp(c *sym.Term, label string) {
 		m.Trivial++
 		return
 	}
+	m.Z.MirrorNext = true // assertion queries are the ones cross-checked by the second solver
 	r := m.check([]*sym.Term{c}, []bool{true})
 	switch r {
 	case sym.Unsat:
